@@ -46,8 +46,19 @@ def selfcheck(ev):
     return probs
 
 
+def out_root():
+    """evidence/ and replays/ live in /verif only for runs against /repo itself; experiments on
+    scratch copies (VERIF_REPO) write to $VERIF_OUT (default /tmp/verif-alt)"""
+    from . import target
+    if target.REPO == os.path.realpath("/repo"):
+        return ROOT
+    d = os.environ.get("VERIF_OUT", "/tmp/verif-alt")
+    os.makedirs(d, exist_ok=True)
+    return d
+
+
 def write(ev):
-    d = os.path.join(ROOT, "evidence")
+    d = os.path.join(out_root(), "evidence")
     os.makedirs(d, exist_ok=True)
     path = os.path.join(d, ev["property_id"] + ".json")
     tmp = path + ".tmp"
